@@ -450,34 +450,3 @@ Proof.
   unfold run. cbn [run_from]. rewrite E1.
   unfold run in E2. erewrite run_from_ok_shift; [reflexivity|]. rewrite E2. rewrite Cs, Hbel. reflexivity.
 Qed.
-
-(* ---------- the proved kinds together ---------- *)
-Theorem sim_proved : forall s a, sim_proved_for s a = true -> action_sim s a.
-Proof.
-  intros s a H. destruct a as [tb cols0 ks0|tb|tb cl fw|tb f2 t2|tb cn|tb cn ty fw|tb cn nl fw|tb cn nd|tb cn nc|tb k|tb k|f2 t2|sql];
-    cbn [sim_proved_for] in H; try discriminate.
-  - apply sim_create_table. exact H.
-  - intros s' Ha P. apply Bool.negb_true_iff in H.
-    destruct (sim_delete_table s P tb s' (catalog_of s) eq_refl Ha H) as [st [G R]]. exists st. split; assumption.
-  - apply sim_add_column. exact H.
-  - apply sim_delete_column. exact H.
-  - apply sim_modify_column. exact H.
-  - apply sim_modify_column. exact H.
-  - apply sim_modify_column. exact H.
-  - apply sim_modify_column. exact H.
-  - destruct k; try discriminate.
-    + unfold add_key_full_hyp in H. apply Bool.andb_true_iff in H. destruct H as [H1 H2]. apply sim_add_key; assumption.
-    + apply sim_add_check. exact H.
-    + unfold add_key_full_hyp in H. apply Bool.andb_true_iff in H. destruct H as [H1 H2]. apply sim_add_key; assumption.
-  - destruct k; try discriminate. apply sim_remove_check. exact H.
-  - apply sim_raw_sql.
-Qed.
-
-(* a whole plan of such actions keeps the simulation *)
-Theorem Sim_plan_proved : forall acts s s',
-  (forall i a, nth_error acts i = Some a -> sim_proved_for (schema_at s acts i) a = true) ->
-  apply_all s acts = Ok s' ->
-  exists L, gen_plan s acts = Ok L /\ run (catalog_of s) (List.concat L) = RunOk (catalog_of s').
-Proof.
-  intros acts s s' H. apply Sim_plan. intros i a Hn. apply sim_proved. apply H. exact Hn.
-Qed.
